@@ -61,7 +61,7 @@ Section C02.
   Theorem C02_lr_structure : forall votes n prev caps sel,
     let q := quota (qsumv votes) n in
     ~ (q == 0)%Q ->
-    qd_evaluate quota accept_equal pol votes n prev [] = QD_ok (plain sel) ->
+    qd_evaluate quota accept_equal pol votes n prev caps = QD_ok (plain sel) ->
     let gained := add_dict sel prev in
     let nrem := n - zsumv gained in
     lr_evaluate quota accept_equal pol votes n prev caps =
@@ -154,7 +154,7 @@ Proof. split; vm_compute; reflexivity. Qed.
 (* ---- the capped clause: full statement, and its refutation on the pinned tree *)
 Definition C02_caps_full_statement : Prop :=
   forall quota ae pol votes n prev caps sel,
-    qd_evaluate quota ae pol votes n prev caps = QD_ok sel ->
+    qd_evaluate_pinned quota ae pol votes n prev caps = QD_ok sel ->
     forall c m, dget caps c = Some m -> dget_or prev c 0 <= m ->
       (* a capped party is held at its cap when its whole quotas reach it *)
       (forall v, In (c, v) votes -> m <= whole_add ae (quota (qsumv votes) n) [] c v ->
@@ -174,7 +174,7 @@ Qed.
 
 (* LargestRemainder never passes max_seats to the quota stage: a party capped at 2 ends with 3 *)
 Theorem C02_lr_caps_refuted :
-  lr_evaluate droop true PError [(1%positive, 60#1); (2%positive, 30#1); (3%positive, 10#1)]%Q 5 []
+  lr_evaluate_pinned droop true PError [(1%positive, 60#1); (2%positive, 30#1); (3%positive, 10#1)]%Q 5 []
               [(1%positive, 2)]
   = LR_ok [(K 1%positive, 3); (K 2%positive, 2)].
 Proof. vm_compute. reflexivity. Qed.
